@@ -119,8 +119,8 @@ func runC06(c *Ctx, idx int) {
 			return false
 		}
 		path := pathKind(n)
-		if n.Data == "a" && hasAttr(n, "href") {
-			checkVal(attr(n, "href"), "a", "href", path)
+		if (n.Data == "a" || n.Data == "area") && hasAttr(n, "href") {
+			checkVal(attr(n, "href"), n.Data, "href", path)
 		}
 		switch n.Data {
 		case "img", "source", "track", "video":
